@@ -39,14 +39,16 @@ SPEC = {
                 "per-pin codecs (protobuf, encoding/json, msgpack entries): property C08; at this level a pin is (cid, content id, #origins) and a JSON line decodes iff #origins = 0",
                 "go-ds-crdt / badger / leveldb as the crdt manager's store (Clean deletes the namespace; an uncommitted batch writes nothing)",
                 "harness canonical pin printer (harness/dsstate/c14_pins.go VC14Canon): two pins get the same content id iff every field prints the same"],
-    "level_text": "Theorems (Props/C14.v, 18, all closed under the global context) over Gallina transcriptions of data_helper.go makeBackup/listBackups, "
+    "level_text": "Theorems (Props/C14.v, 31, all closed under the global context) over Gallina transcriptions of data_helper.go makeBackup/listBackups, "
                   "raft.go CleanupRaft/SnapshotSave/LastStateRaw, consensus.go OfflineState, dsstate Marshal/Unmarshal, cmdutils exportState/importState and "
                   "both state managers, pstoremgr Load/Save/ImportPeers/PeerInfos: rotation for every retention >= 1, every pre-existing set of backups and "
                   "every history; snapshot/offline and marshal/unmarshal identity for every pinset and every datastore order; export->import identity under the "
                   "no-origins guard (full statement refuted: S19) and, for crdt, the non-empty guard (refuted: empty batch commit crashes); peerstore round trip "
                   "for whatever PeerInfos returns from any reachable peerstore, garbage lines skipped for every file. Each transcription is compared with the real "
                   "functions on real directories, files, hosts and stores at every run, and the implementation's own observations are checked against the boolean "
-                  "form of each clause",
+                  "form of each clause. Monitor theorems (Proofs/C14_Monitor.v): for each of the six case kinds, the case annotated with the model's own outputs "
+                  "raises no code for every input (backup/snapshot: keep <= listed window; snapshot/export: interned cid-sorted pinset table; export: outside the two "
+                  "finding shapes, inside them only codes 17/18 with the finding's tag), and absence of each code 10..18 implies its Prop-level clause",
     "level_note": "models tied to code by differential testing (generator-bounded; the backup box is exhaustive for keep 1..4 x 64 backup sets x 1..6 cleans); "
                   "per-pin codecs abstracted (C08); Unmarshal onto a non-empty store is C01 (S1); two findings carried as refuted/partial pairs "
                   "(origins-undecodable-import, crdt-import-empty-panics)",
